@@ -184,9 +184,10 @@ class NPShim:
         n = len(s)
         if n == 1:
             return s[0]
-        # numpy default method 'linear': virtual index (n-1)*q/100
-        pos = (n - 1) * q / 100
-        if not sx.is_sym(pos):
+        # numpy default method 'linear': virtual index (n-1)*q/100, evaluated EXACTLY (rationals) - the claim is over the reals
+        if not sx.is_sym(q):
+            import fractions
+            pos = fractions.Fraction(n - 1) * fractions.Fraction(q) / 100
             i = int(math.floor(pos))
             fr = pos - i
             if i >= n - 1:
@@ -194,6 +195,7 @@ class NPShim:
             if fr == 0:
                 return s[i]
             return s[i] + fr * (s[i + 1] - s[i])
+        pos = (n - 1) * q / 100
         for i in range(n - 1):
             if (pos >= i) & (pos <= i + 1):
                 fr = pos - i
@@ -348,7 +350,7 @@ def validate():
             for q in (0, 25, 50, 100, 33.3):
                 n += 1
                 if clean and not builtins.any(math.isinf(x) for x in clean):
-                    got = sh._percentile(clean, q)
+                    got = float(sh._percentile(clean, q))
                     want = real.nanpercentile(arr, q)
                     if not (math.isclose(got, want, rel_tol=1e-12, abs_tol=1e-12)):
                         bad.append(("nanpercentile", xs, q, got, want))
